@@ -192,6 +192,98 @@ def replay_pa(ctx, body):
 REPLAYERS["PA"] = replay_pa
 
 
+# ------------------------------------------------------------------ C02
+def rdflib_case(ctx, cls=None, entry=None, nd=None, fits=True):
+    import fam_rdflib  # noqa: F401
+    import gen as genmod
+
+    r = ctx.rng
+    cls = cls or r.choice("TQG")
+    ar = 3 if cls == "T" else 4
+    g = genmod.Gen(r, nprefix=r.randint(1, 5), nname=r.randint(2, 8), ndt=r.randint(1, 3))
+    stmts = fam_parse.rdf11_statements(r, g, r.choice([1, 2, 3, 5, 8, 13, 25]), ar)
+    need = genmod.table_need(stmts)
+    cfg = genmod.random_cfg(r, cls, need)
+    cfg.ig, cfg.gen, cfg.star = "r", False, False
+    if cfg.maxd == 0 and need[2]:
+        cfg.maxd = need[2]
+    entry = entry or r.choice(["stream_frames", "stream_frames", "serialize", "flat"])
+    data = {"T": "graph", "Q": "dataset", "G": "dataset"}[cls]
+    if entry == "flat" or (entry == "stream_frames" and r.random() < 0.3):
+        data = "gen"
+    cfg.delim = r.random() < 0.75
+    if not cfg.delim or entry != "stream_frames":
+        cfg.logical = {"T": 1, "Q": 2, "G": 2}[cls]
+    if entry == "flat":
+        cfg.delim = True
+        if cls == "G":
+            cls = cfg.cls = "Q"
+    if entry == "serialize" and cls == "G":
+        # Graph.serialize guesses the stream class from the logical type; GraphStream needs stream=
+        pass
+    nd = (r.random() < 0.25) if nd is None else nd
+    cfg.nd = nd and data != "gen"
+    ns = g.namespaces(r.randint(0, 3)) if cfg.nd else []
+    ns = [(a, b) for a, b in ns if b]
+    case = {"cfg": cfg, "stmts": stmts, "ns": ns, "data": data, "entry": entry, "oracles": ["roundtrip", "spec", "flushed"]}
+    if entry == "serialize":
+        case["pass_stream"] = cls == "G" or r.random() < 0.4
+    return case
+
+
+def rdflib_sweep(ctx, n, **kw):
+    import fam_rdflib
+
+    out = []
+    for i in range(n):
+        case = rdflib_case(ctx, **kw)
+        cfg = case["cfg"]
+        ctx.report.evaluations += 1
+        ctx.report.count(f"ER/{case['entry']}/{cfg.cls}/{case['data']}/{'delim' if cfg.delim else 'single'}")
+        if len(case["stmts"]) > 1:
+            ctx.report.nontrivial.add((case["entry"], cfg.tok(), tuple(core_stmt_tok(s) for s in case["stmts"])))
+        d = fam_rdflib.run_rdflib_case(ctx, case)
+        if i < 2:
+            ctx.report.sample({"family": "ER", "entry": case["entry"], "data": case["data"], "cfg": cfg.as_json(), "stmts": [core_stmt_tok(s) for s in case["stmts"]][:3], "agreed": d is None})
+        if d:
+            out.append(d)
+    return out
+
+
+@plan(
+    "C02",
+    "ER: random RDF 1.1 graphs/datasets (small alphabets; default graph, blank-node graph names, language tags with case, typed "
+    "literals incl. lexical forms rdflib would normalise) x TripleStream/QuadStream/GraphStream x presets at the fits boundary x "
+    "frame sizes x delimited or not, through Graph.serialize(format='jelly'), stream_frames, flat_stream_to_frames; the model is given the "
+    "iteration order rdflib actually used; frames compared byte for byte, then parsed back with parse_jelly_to_graph and compared as sets. "
+    "Non-trivial = more than one statement; distinct by (entry, configuration, statements).",
+    ["rdflib's Graph/Dataset/store behaviour (iteration order, bind policy, plugin registration) is data for the model, not modelled"],
+)
+def c02(ctx):
+    return rdflib_sweep(ctx, ctx.n(500, 8000))
+
+
+def replay_er(ctx, body):
+    import fam_rdflib
+    from core import Cfg
+
+    cfg = Cfg(**{k: (tuple(v) if k == "flow" and v is not None else v) for k, v in body["cfg"].items()})
+    case = {"cfg": cfg, "stmts": [parse_stmt_tok(t) for t in body["stmts"]], "ns": [tuple(x) for x in body.get("ns", [])],
+            "data": body["data"], "entry": body["entry"], "oracles": ["roundtrip", "spec", "flushed"]}
+    case.update(body.get("extra", {}))
+    d = fam_rdflib.run_rdflib_case(ctx, case)
+    if d is None:
+        return None
+    print("impl :", d["impl"][:600])
+    print("model:", d["model"][:600])
+    if d["property_violation"]:
+        return d["property_violation"]["what"]
+    return "model and implementation disagree"
+
+
+REPLAYERS["ER"] = replay_er
+
+
 def replay_en(ctx, body):
     import core
     from core import Cfg
